@@ -546,7 +546,7 @@ func cmdHistory(args []string) {
 				h.filter(0, "cfg-re", lint.FilterOptions{NameFilter: regexp.MustCompile("^[ewn]_")}),
 				h.filter(0, "cfg-exc", lint.FilterOptions{ExcludeSources: lint.SourceList{lint.RFC5891}})}
 			for oi := range objs {
-				if only == "" && oi%3 != int(seed)%3 && !strings.HasPrefix(objs[oi].ID, "forged:") {
+				if only == "" && oi%6 != int(seed)%6 && !strings.HasPrefix(objs[oi].ID, "forged:san-case") {
 					continue
 				}
 				if oi%2 == 0 {
